@@ -224,6 +224,45 @@ func roUses(c *Ctx, v ssa.Value, depth int, seen map[ssa.Value]bool) (string, st
 			if x.Addr == v {
 				return "is written through (" + pos + ")", ""
 			}
+			// copied into a local variable of the same function (a range variable, a temporary): follow the local's uses
+			if al, ok := x.Addr.(*ssa.Alloc); ok && !al.Heap {
+				if seen[al] {
+					continue
+				}
+				seen[al] = true
+				for _, ar := range *al.Referrers() {
+					switch y := ar.(type) {
+					case *ssa.DebugRef:
+					case *ssa.Store:
+						if y.Addr != ssa.Value(al) {
+							return "", "has the address of a local copy stored (" + c.pos(y.Pos()) + ")"
+						}
+					case *ssa.UnOp:
+						if b, u := roUses(c, y, depth, seen); b != "" || u != "" {
+							return b, u
+						}
+					case *ssa.FieldAddr, *ssa.IndexAddr:
+						for _, r2 := range *y.(ssa.Value).Referrers() {
+							switch z := r2.(type) {
+							case *ssa.DebugRef:
+							case *ssa.UnOp:
+								if b, u := roUses(c, z, depth, seen); b != "" || u != "" {
+									return b, u
+								}
+							case *ssa.Store:
+								if z.Addr != y.(ssa.Value) {
+									return "", "has the address of a part of a local copy stored (" + c.pos(z.Pos()) + ")"
+								}
+							default:
+								return "", "has a part of a local copy used by " + fmt.Sprintf("%T", r2) + " (" + c.pos(r2.Pos()) + ")"
+							}
+						}
+					default:
+						return "", "has a local copy used by " + fmt.Sprintf("%T", ar) + " (" + c.pos(ar.Pos()) + ")"
+					}
+				}
+				continue
+			}
 			return "is aliased: stored into " + x.Addr.Name() + " (" + pos + "); a later write through the alias writes the shared variable", ""
 		case *ssa.Return:
 			return "escapes through a return value (" + pos + ")", ""
